@@ -849,8 +849,12 @@ fn exec_op(w: &Rc<World>, op: &str, _in_cb: bool) {
             let d = w.disps.borrow();
             match d.get(&num(1)) {
                 Some(Disp::Timer(disp)) => {
-                    let dl = deadline_of(w, t[2].parse().unwrap());
-                    match catch_unwind(AssertUnwindSafe(|| disp.as_source_mut().inner.set_deadline(dl))) {
+                    // `none`: a deadline that cannot be represented (set_duration(MAX)) — the timer is parked
+                    let dl = if t[2] == "none" { None } else { Some(deadline_of(w, t[2].parse().unwrap())) };
+                    match catch_unwind(AssertUnwindSafe(|| match dl {
+                        Some(dl) => disp.as_source_mut().inner.set_deadline(dl),
+                        None => disp.as_source_mut().inner.set_duration(Duration::MAX),
+                    })) {
                         Ok(()) => {}
                         Err(_) => say(w, format!("op {} -> borrowed", op)),
                     }
